@@ -184,14 +184,21 @@ Qed.
 (* ---- the values loads return ---- *)
 Lemma tstep_load mf p s p' s' x v :
   tstep mf p s = Some (p', s', ELoad x v) ->
-  v = get_obj s x /\ s' = s /\ p' = Done (RetNum v) /\ (x = OVis \/ x = OHid \/ x = OCnt).
+  v = get_obj s x /\ s' = s /\
+  (p' = Done (RetNum v) \/ p' = Sn2 v \/ (exists a, p' = Sn3 a v) \/ (exists a b, p' = Sn4 a b v)) /\
+  (x = OVis \/ x = OHid \/ x = OCnt).
 Proof.
+  (* the loads are the single-step reads and the first three steps of a snapshot *)
   intros H.
   destruct p; cbn [tstep] in H; unfold fetch_add, fetch_sub in H;
     repeat match type of H with
     | context [if ?c then _ else _] => destruct c; cbv beta iota zeta in H
     | context [match ?d with _ => _ end] => destruct d; cbv beta iota zeta in H
-    end; try discriminate; inversion H; subst; cbn [get_obj]; auto 6.
+    end; try discriminate; inversion H; subst; cbn [get_obj];
+    (split; [reflexivity|split; [reflexivity|split; [|auto]]]);
+    first [ left; reflexivity | right; left; reflexivity
+          | right; right; left; eexists; reflexivity
+          | right; right; right; do 2 eexists; reflexivity ].
 Qed.
 
 Definition load_bound (c0 : config) (x : obj) : N :=
